@@ -51,8 +51,21 @@ class Type(Scope):
             return
         self.inherit_version = inherit_version
         self.inherit_var = find_in_scope(self.parent, self.inherit, obj_tree)
+        # A type cannot (transitively) extend itself: keep the parent chain acyclic
+        if self._extends_self():
+            self.inherit_var = None
         if self.inherit_var is not None:
             self._resolve_inherit_parent(obj_tree, inherit_version)
+
+    def _extends_self(self) -> bool:
+        seen = []
+        obj = self.inherit_var
+        while obj is not None and not any(obj is i for i in seen):
+            if obj is self:
+                return True
+            seen.append(obj)
+            obj = getattr(obj, "inherit_var", None)
+        return False
 
     def _resolve_inherit_parent(self, obj_tree, inherit_version):
         # Resolve parent inheritance while avoiding circular recursion
